@@ -31,7 +31,7 @@ def run(ctx):
     q = ctx.quick
     memlib.unit(ctx, ["evaluate", "evaluate_missing", "evaluate_nested", "evaluate_with", "set_objective",
                       "register", "evaluate_id", "evaluate_scoped"], registrations=True)
-    runlib.run_templates(ctx, ["C06"], seeds=[ctx.seed, ctx.seed + 1] if q else list(range(ctx.seed, ctx.seed + 12)),
+    runlib.run_templates(ctx, ["C06"], seeds=[ctx.seed, ctx.seed + 1] if q else list(range(ctx.seed, ctx.seed + 5)),
                          iters=[0, 4] if q else [0, 1, 8, 30], evals=("seq", "par"))
     return ctx.finish(RULE)
 
